@@ -24,7 +24,9 @@ Definition catches (names : list exn) (e : exn) : bool := existsb (exn_eqb e) na
 Definition ndigits_Z (z : Z) : N := blen (dec_of_N (Z.abs_N z)).
 Definition over_limit (lim nd : N) : bool := (0 <? lim) && (lim <? nd).
 Definition str_of_int (lim : N) (z : Z) : res str :=
-  if over_limit lim (ndigits_Z z) then Exn ValueError else Ok (dec_of_Z z).
+  let d := dec_of_N (Z.abs_N z) in            (* the digits, computed once *)
+  if over_limit lim (blen d) then Exn ValueError
+  else Ok (if (z <? 0)%Z then 45 :: d else d).
 
 Definition py_str (lim : N) (v : pyval) : res str :=
   match v with
